@@ -123,6 +123,7 @@ let parse_file (path : string) : Trace.tev list * stats =
   let linenos = ref [] in
   let push e = out := e :: !out; linenos := st.lines :: !linenos in
   let inq = ref false and truth = ref [] and subs = ref [] and ents = ref [] and qfinal = ref false in
+  let task_go = ref false and task_resets = ref [] in   (* the current task: released from the reset throttle / resets it started *)
   let reqtab : (int, Datatypes.nat) Hashtbl.t = Hashtbl.create 64 in
   let http_open : (string, int * bool) Hashtbl.t = Hashtbl.create 8 in
   let http_rids : (string, Datatypes.nat) Hashtbl.t = Hashtbl.create 8 in
@@ -252,6 +253,8 @@ let parse_file (path : string) : Trace.tev list * stats =
           let acc = if which = "access" || which = "both" then matching else [] in
           push (Trace.TSysReset (res, acc))
         | ["SCHED"; w] ->
+          task_go := (S.length w >= 11 && S.sub w 0 11 = "go:throttle");
+          task_resets := [];
           let c = if S.length w > 6 && S.sub w 0 5 = "conn:" && (S.get w 5 = 'c' || S.get w 5 = 'h') then Some (conn_of (S.sub w 5 (S.length w - 5))) else None in
           push (Trace.TSched c)
         | ["RAWOUT"; c; hx] ->
@@ -261,7 +264,7 @@ let parse_file (path : string) : Trace.tev list * stats =
                                   && S.get txt (i+2) >= '0' && S.get txt (i+2) <= '9' then leak := true) txt;
           push (Trace.TRawOut (conn_of c, !leak))
         | "MQREQ" :: n :: typ :: r :: meth :: cid :: tok :: _ ->
-          let t = (match typ with "get" -> Trace.MGet | "access" -> Trace.MAccess | "call" -> Trace.MCall | "auth" -> Trace.MAuth | "query" -> Trace.MQuery | "tokenreset" -> Trace.MTokReset | _ -> Trace.MOtherReq) in
+          let t = (match typ with "get" -> if !task_go || L.mem r !task_resets then Trace.MRefetch else Trace.MGet | "access" -> Trace.MAccess | "call" -> Trace.MCall | "auth" -> Trace.MAuth | "query" -> Trace.MQuery | "tokenreset" -> Trace.MTokReset | _ -> Trace.MOtherReq) in
           if typ = "query" then Hashtbl.replace qreq (int_of_string n) r;
           let c = if S.length cid > 1 && (S.get cid 0 = 'c' || S.get cid 0 = 'h') then Some (conn_of cid) else None in
           Hashtbl.replace reqtab (int_of_string n) (rid_of r);
@@ -308,7 +311,7 @@ let parse_file (path : string) : Trace.tev list * stats =
         | "Q" :: label :: _ -> inq := true; qfinal := (label = "end")
         | "Q" :: _ -> inq := true; qfinal := false
         | ["SITE"; "reset.task"; _; r] -> push (Trace.TResetTask (rid_of r))
-        | ["SITE"; "reset.start"; _; r] -> push (Trace.TResetStart (rid_of r))
+        | ["SITE"; "reset.start"; _; r] -> task_resets := r :: !task_resets; push (Trace.TResetStart (rid_of r))
         | ["SITE"; "reset.noop"; _; r] -> push (Trace.TResetNoop (rid_of r))
         | ["SITE"; "reset.done"; _; r] -> push (Trace.TResetDone (rid_of r))
         | "SITE" :: id :: _ -> st.sites <- id :: st.sites; push Trace.TOther
